@@ -3,6 +3,6 @@ CONSTANTS
   Alloc = {1, 2, 3}
   Thread = {1, 2, 3}
 SPECIFICATION TraceSpec
-INVARIANTS TypeOK StrongExact DroppedIffUnreferenced NoDangling
+INVARIANTS TypeOK StrongExact DroppedIffUnreferenced NoDangling HandleOnce HandleHeld HandleNoAlias
 POSTCONDITION TraceAccepted
 CHECK_DEADLOCK FALSE
